@@ -46,6 +46,8 @@ func pointDetail(name string, obj interface{}) string {
 // ConcWriters: N goroutines write concurrently to one event log store; the explorer steps each writer
 // through the points begin / afterAppend / afterPersist / afterIndex.
 type ConcWriters struct {
+	k0       int    // effects issued before the writers started
+	identity string
 	last    string // thread that made the last step
 	status  bool   // sample (progress, max) after every step; the status code's locks are points too
 	lastP   int
@@ -149,6 +151,7 @@ func NewConcWritersStatus(kind string, n, per int, locks bool, merge int, status
 		return nil, err
 	}
 	w.store, w.addr = s, s.Address().String()
+	w.k0, w.identity = len(w.peer.Effects()), inst.DB.Identity().ID
 	var remoteHeads []ipfslog.Entry
 	if merge > 0 {
 		rs, err := w.remote.DB.Open(bg, w.addr, &orbitdb.CreateDBOptions{Replicate: boolp(false)})
@@ -222,6 +225,7 @@ func NewConcWritersStatus(kind string, n, per int, locks bool, merge int, status
 					w.errs[payload] = err
 				} else {
 					w.acked[payload] = h
+					w.peer.Ack("W:" + h) // position of the acknowledgement in the peer's effect log (C05)
 				}
 				w.mu.Unlock()
 			}
